@@ -1,13 +1,21 @@
 import ScriggoV.Drv.Util
 import ScriggoV.Model.Escape
 import ScriggoV.Spec.Slots
+import ScriggoV.Spec.HtmlTok
+import ScriggoV.Model.LexCtx
+import ScriggoV.Drv.Lexer
 /-! C06 line protocol.
 `C06 scan <which> <hex>` → `ok 0|1`: is the byte string slot-confined per Spec/Slots.lean;
                            which ∈ data dq sq unq name raw jsdq jssq json cssdq csssq
 `C06 esc <which> <hex>`  → `ok <outhex> <flags>`: the model escaper's output (Model/Escape.lean) and, as a
                            string of 0/1, the slot scanners' verdicts on it (what the Layer-1 theorems claim
                            is all-1, except `unq` on the empty value);
-                           which ∈ html attr11 attr10 attr01 attr00 (escapeEntities, quoted) js css path0 path1 query -/
+                           which ∈ html attr11 attr10 attr01 attr00 (escapeEntities, quoted) js css path0 path1 query
+`C06 tok <hex>`          → `ok <ctx> <url>`: the abstraction of the reference tokenizer's state (Spec/HtmlTok.lean)
+                           after the bytes; ctx ∈ html tag quotedAttr unquotedAttr js jsString css cssString, or
+                           `ok none -` (no claim / outside class D: `ok bad -`)
+`C06 lexctx <hex> <n>`   → `ok <pos> <ctx> <url>`: Model/LexCtx.lean's `ctxAt` on the text at offset n (ctx as the
+                           number of ast.Context) -/
 namespace ScriggoV.Drv.C06
 open ScriggoV ScriggoV.Escape ScriggoV.Slots
 
@@ -57,7 +65,30 @@ def esc? (which : String) (s : Bytes) : Option (Bytes × List Bool) :=
   | "query" => let o := queryEscapeOut s; some (o, [attrDqConfined o, attrSqConfined o])
   | _ => none
 
+def ctxName : HtmlTok.Ctx → String
+  | .html => "html" | .tag => "tag" | .quotedAttr => "quotedAttr" | .unquotedAttr => "unquotedAttr"
+  | .js => "js" | .jsString => "jsString" | .css => "css" | .cssString => "cssString"
+
+def bit (b : Bool) : String := if b then "1" else "0"
+
+def tok (p : Bytes) : String :=
+  let r := HtmlTok.run p
+  match HtmlTok.abs Lexer.containsURL r with
+  | some (c, u) => "ok " ++ ctxName c ++ " " ++ bit u
+  | none => if r == .bad then "ok bad -" else "ok none -"
+
+def lexctx (text : Bytes) (n : Nat) : String :=
+  let s := LexCtx.ctxAt (Drv.Lexer.mkUnicode []) text n
+  "ok " ++ toString s.pos ++ " " ++ toString s.ctx ++ " " ++ bit s.url
+
 def handle : List String → Option String
+  | ["tok", h] => do
+    let p ← fromHex h
+    pure (tok p)
+  | ["lexctx", h, n] => do
+    let t ← fromHex h
+    let n ← n.toNat?
+    pure (lexctx t n)
   | ["scan", which, h] => do
     let s ← fromHex h
     let b ← scan? which s
